@@ -14,7 +14,8 @@
 // {vote by validator i (i<N), vote by an outsider} — repeat votes included — until two steps past the
 // release, deduplicated on (real state dump, model state). One epoch change through the real node_manager path
 // (join / replace / shrink, see epochChange) is inserted at every position of every sequence: quick for the
-// vote router and AddSignature at N = 4, 5; thorough for every mechanism and N.
+// every mechanism at N = 4 (and vote router / AddSignature at N = 5); thorough for every mechanism and N. The
+// change may come before or after the release; "exactly once" is asserted over the whole history of a subject.
 //
 // Oracle (reference model: a set of voters and a released flag):
 //   - a vote by a non-validator fails and leaves the dump unchanged;
@@ -218,10 +219,16 @@ func mechs() []mech {
 //	replace registerCandidate(new) + approveCandidate by a quorum + blackNode(validator 0) by a quorum of the
 //	        others (the quorum-completing blackNode runs commitDpos itself): validator 0 out, new one in
 //	shrink  blackNode(validator 0) by a quorum (needs N >= 5: node_manager keeps > MIN_PEER_NUM peers): N -> N-1
+//	join3   three new validators at once: N -> N+3. After a release at ceil(2N/3) the stored votes fall below the
+//	        new quorum by at least two, so one further vote stays below and a second one crosses it again: the
+//	        release / event must still not fire a second time (exactly once per subject over the whole history).
+//
+// The epoch change is inserted at every position of a sequence, BEFORE and AFTER the release; exploration goes on
+// until two votes past the release (epoch changes and WhiteChain do not count as steps).
 func epochChange(w *ccm.W, vals []*polyenv.Acct, mode string, height uint32) error {
-	nv := acct(newValK)
 	ser := func(f func(*common.ZeroCopySink)) []byte { s := common.NewZeroCopySink(nil); f(s); return s.Bytes() }
-	if mode != "shrink" {
+	for k := 0; k < joiners(mode); k++ {
+		nv := acct(newValK + k)
 		rp := &node_manager.RegisterPeerParam{PeerPubkey: nv.PubHex, Address: nv.Addr}
 		r := w.Exec(polyenv.Tx(utils.NodeManagerContractAddress, node_manager.REGISTER_CANDIDATE, ser(rp.Serialization), 7001, polyenv.Single(nv)), height, 1000)
 		if !r.OK {
@@ -235,7 +242,7 @@ func epochChange(w *ccm.W, vals []*polyenv.Acct, mode string, height uint32) err
 			}
 		}
 	}
-	if mode == "join" {
+	if mode == "join" || mode == "join3" {
 		r := w.Exec(polyenv.Tx(utils.NodeManagerContractAddress, node_manager.COMMIT_DPOS, nil, 7004, polyenv.Multi(vals)), height, 1000)
 		if !r.OK {
 			return fmt.Errorf("commitDpos: %v", r.Err)
@@ -250,6 +257,17 @@ func epochChange(w *ccm.W, vals []*polyenv.Acct, mode string, height uint32) err
 		}
 	}
 	return nil
+}
+
+// joiners: number of new validators (keys newValK, newValK+1, ...) an epoch mode brings in.
+func joiners(mode string) int {
+	switch mode {
+	case "join", "replace":
+		return 1
+	case "join3":
+		return 3
+	}
+	return 0
 }
 
 func curAccts(cur map[int]bool) []*polyenv.Acct {
@@ -329,8 +347,8 @@ func main() {
 	r.Finish(map[string]any{
 		"rule":       "release/emit exactly once, in the tx of the first current-validator vote after which |voters ∩ current consensus| >= ceil(2N/3); outsiders never leave a trace",
 		"mechanisms": []string{"vote router", "ripple router", "UpdateFee", "AddSignature", "vote router with blacklisted target (failed release)"},
-		"N_range":    fmt.Sprintf("1..%d", nmax), "epoch_change_modes": []string{"join N>=1", "replace N>=4", "shrink N>=5"},
-		"epoch_change_scope": map[bool]string{true: "every mechanism, every N", false: "vote router and AddSignature at N=4,5"}[r.Thorough()],
+		"N_range":    fmt.Sprintf("1..%d", nmax), "epoch_change_modes": []string{"join N>=1", "join3 N<=6", "replace N>=4", "shrink N>=5"}, "epoch_change_positions": "every position before and after the release",
+		"epoch_change_scope": map[bool]string{true: "every mechanism, every N", false: "every mechanism at N=4 (incl. join3), vote router and AddSignature also at N=5"}[r.Thorough()],
 		"states":             total.States, "transitions": total.Transitions, "traces_validated_against_impl": total.Transitions, "max_depth": total.MaxDepth,
 	})
 }
@@ -338,9 +356,13 @@ func main() {
 func explore(r *ev.Run, j job, pool *ccm.Worlds, epochBuilt *int64) mc.Stats {
 	m, n, vals := j.m, j.n, j.vals
 	epochModes := []string{}
-	// quick tier: epoch changes only for the vote router and AddSignature at N = 4, 5; thorough: everywhere
-	if r.Thorough() || ((m.name == "vote" || m.name == "sig") && (n == 4 || n == 5)) {
+	// quick tier: epoch changes for every mechanism at N = 4 and for the vote router and AddSignature at N = 5;
+	// thorough: every mechanism and N (join3 for N <= 6)
+	if r.Thorough() || n == 4 || ((m.name == "vote" || m.name == "sig") && n == 5) {
 		epochModes = append(epochModes, "join")
+		if n <= 6 && (r.Thorough() || n == 4) {
+			epochModes = append(epochModes, "join3")
+		}
 		if n >= 4 {
 			epochModes = append(epochModes, "replace")
 		}
@@ -352,7 +374,7 @@ func explore(r *ev.Run, j job, pool *ccm.Worlds, epochBuilt *int64) mc.Stats {
 		nx := s
 		nx.Depth = s.Depth + 1
 		nx.Voters, nx.Cur = cp(s.Voters), cp(s.Cur)
-		if s.Releases > 0 {
+		if s.Releases > 0 && e != "white" && !strings.HasPrefix(e, "epoch-") {
 			nx.Post = s.Post + 1
 		}
 		switch {
@@ -381,10 +403,10 @@ func explore(r *ev.Run, j job, pool *ccm.Worlds, epochBuilt *int64) mc.Stats {
 				r.HarnessError("epoch change (%s, N=%d) failed: %v", e, n, err)
 			}
 			nx.Epoch = true
-			if mode != "shrink" {
-				nx.Cur[newValK] = true
+			for k := 0; k < joiners(mode); k++ {
+				nx.Cur[newValK+k] = true
 			}
-			if mode != "join" {
+			if mode == "replace" || mode == "shrink" {
 				delete(nx.Cur, 0)
 			}
 			nx.D = w.Dump()
@@ -496,8 +518,10 @@ func explore(r *ev.Run, j job, pool *ccm.Worlds, epochBuilt *int64) mc.Stats {
 			for i := 0; i < n; i++ { // all original validators (an expelled one now votes as an outsider)
 				e = append(e, fmt.Sprintf("v%d", i))
 			}
-			if s.Cur[newValK] {
-				e = append(e, fmt.Sprintf("v%d", newValK))
+			for k := 0; k < 3; k++ {
+				if s.Cur[newValK+k] {
+					e = append(e, fmt.Sprintf("v%d", newValK+k))
+				}
 			}
 			e = append(e, fmt.Sprintf("v%d", outsiderK))
 			if m.name == "blocked" && !s.White {
@@ -506,7 +530,7 @@ func explore(r *ev.Run, j job, pool *ccm.Worlds, epochBuilt *int64) mc.Stats {
 			if m.rounds && s.View > 0 {
 				e = append(e, "stale")
 			}
-			if !s.Epoch && s.Releases == 0 {
+			if !s.Epoch {
 				for _, em := range epochModes {
 					e = append(e, "epoch-"+em)
 				}
